@@ -5,7 +5,8 @@ OPT = ['--ptrdiff', '--flat-unions']
 SSO = dict(wrap='wrap.cc', cxxflags=['-fno-inline'], cuts=['basic_stringIcSt11char_traitsIcESaIcEE9_M_createERmm$'], extra_c=['sso_bound.c'], ir2c_flags=OPT)
 UNITS = {'P': dict(SSO, new_block=64, gen_defs=['VERIF_NEW_POOL=8']), 'X': dict(wrap='wrap.cc', new_block=64, ir2c_flags=OPT),
          # XP: exact libstdc++ strings (heap storage allowed, blocks of 64 bytes) + deterministic pool allocator; NP: the same without inlining
-         'XP': dict(wrap='wrap.cc', new_block=64, ir2c_flags=OPT, gen_defs=['VERIF_NEW_POOL=16']),
+         # (phosg::format_color_escape is variadic: cut, exact model in h_hexdump.c for the generated-C modes)
+         'XP': dict(wrap='wrap.cc', new_block=64, ir2c_flags=OPT, gen_defs=['VERIF_NEW_POOL=16'], cuts=['^_ZN5phosg19format_color_escapeB5cxx11ENS_14TerminalFormatEz$']),
          'NP': dict(wrap='wrap.cc', new_block=64, ir2c_flags=OPT, gen_defs=['VERIF_NEW_POOL=16'], cxxflags=['-fno-inline'], extra_c=['alloc_noop.c'])}
 BOUNDS = ('format_data_string: data 0..2 bytes with symbolic mask / has_mask / flag, 2..5 bytes with has_mask and flag case-split (quick 0..2); '
           'parse_data_string: arbitrary text of 0..1 bytes quick, 0..3 thorough (all 256 values, mask requested or not, flags 0); round trip format->parse through the real parser: data 0..1 (0..2 thorough) bytes; '
@@ -33,6 +34,14 @@ def Q(name, unit, harness, defs, unwind, desc='', bounds='', timeout=900, mem_gb
 PRINTF_LOOPS = ','.join('verif_fmt_core.%d:17' % i for i in range(14))  # stub_printf.h scans up to 16 hex digits
 
 
+def hd_cap(size, st, fl, w):
+    """text capacity of a hex dump cell = h_hexdump.c's CAP (lines * line width + room for escape sequences + 1)"""
+    nl = ((st & 15) + size + 15) // 16
+    sepw = 0 if fl & 0x40 else 2
+    ascw = ((1 if fl & 0x40 else 3) + 16) if fl & 0x2 else 0
+    return nl * (w + sepw + 48 + ascw + 1) + (size * 30 if fl & 1 else 0) + 1
+
+
 def queries(tier):
     quick = tier == 'quick'
     qs = []
@@ -45,19 +54,40 @@ def queries(tier):
         qs.append(Q('dsformat_len%d_m%d_f%d' % (L, hm, fl), 'P', 'h_dsformat.c', {'LEN': L, 'HM': hm, 'FL': fl}, 5 * L + 4, unwindset=PRINTF_LOOPS, mem_gb=10,
                     desc='as dsformat, has_mask=%d flags=%d fixed' % (hm, fl), bounds='len(data) == %d, all byte values, all masks' % L))
     PLOOP = '_ZN5phosg17parse_data_stringERKNSt7__cxx1112basic_stringIcSt11char_traitsIcESaIcEEEPS5_m.0:%d'
-    for L in ([0, 1] if quick else [0, 1, 2, 3]):
+    for L in ([0] if quick else [0, 1, 2, 3]):
         qs.append(Q('dsparse_len%d' % L, 'P', 'h_dsparse.c', {'LEN': L}, 10 if L <= 2 else 14, unwindset=PLOOP % (L + 2), mem_gb=12, timeout=1800,
                     desc='parse_data_string on %d arbitrary symbolic bytes equals the reference data-string parser (data and mask), strtoull/strtod/strtof contract stubs' % L,
                     bounds='len(text) == %d, all byte values, mask requested or not, flags == 0' % L))
-    for L in ([0, 1] if quick else [0, 1, 2]):
+    # concrete construct openers followed by symbolic bytes (the parser's branches on the concrete prefix fold: seconds per cell)
+    PFX = [('dq', '"', 2), ('sq', "'", 2), ('dq_bs', '"\\', 1), ('sq_bs', "'\\", 1), ('be_sq', "$'", 1), ('hash', '#', 1), ('hash2', '##', 1), ('hash3', '###', 1),
+           ('pct', '%', 1), ('pct2', '%%', 1), ('q', '?', 2), ('dollar', '$', 2), ('slash', '/', 2), ('lc', '//', 1), ('bc', '/*', 2), ('hex4', '4', 2), ('hexb', 'b', 2), ('hexF', 'F', 1), ('lt', '<', 1)]
+    if not quick:
+        PFX += [('hash', '#', 2), ('pct', '%', 2), ('sq_bs', "'\\", 2), ('dq_bs', '"\\', 2), ('bc_star', '/**', 1)]
+    for nm, pre, k in PFX:
+        L = len(pre) + k
+        d = {'LEN': L, 'NPRE': len(pre)}
+        for j, ch in enumerate(pre):
+            d['P%d' % j] = ord(ch)
+        qs.append(Q('dsparse_pfx_%s_s%d' % (nm, k), 'P', 'h_dsparse.c', d, 10 if L <= 2 else 14, unwindset=PLOOP % (L + 2), mem_gb=8, timeout=900,
+                    desc='parse_data_string on the concrete prefix %r followed by %d arbitrary symbolic bytes equals the reference parser; the text is an exact-size object (no read past the NUL)' % (pre, k),
+                    bounds='text == %r + %d symbolic bytes (all values), mask requested or not, flags == 0' % (pre, k)))
+    # round trip through the real parser: (LEN, has_mask, flags) cells in the quick tier (the text is then concrete for LEN 0), symbolic has_mask/flags thorough
+    if quick:
+        for L, hm, fl in [(0, 0, 0), (0, 1, 1)]:
+            qs.append(Q('dsround_len%d_m%d_f%d' % (L, hm, fl), 'P', 'h_dsround.c', {'LEN': L, 'HM': hm, 'FL': fl}, 5 * L + 8, unwindset=PRINTF_LOOPS + ',' + PLOOP % (5 * L + 4), mem_gb=6, timeout=900,
+                        desc='parse_data_string(format_data_string(d, mask, flags)) == (d, mask classes) for %d symbolic bytes, has_mask=%d flags=%d' % (L, hm, fl), bounds='len(data) == %d, has_mask %d, flags %d' % (L, hm, fl)))
+    for L in ([] if quick else [0, 1, 2]):
         qs.append(Q('dsround_len%d' % L, 'P', 'h_dsround.c', {'LEN': L}, 5 * L + 8, unwindset=PRINTF_LOOPS + ',' + PLOOP % (5 * L + 4), mem_gb=6 if L == 0 else 24, timeout=900 if L == 0 else 1800, desc='parse_data_string(format_data_string(d, mask, flags)) == (d, mask classes) for %d symbolic bytes' % L,
                     bounds='len(data) == %d, all byte values, all masks, with/without mask, both flag values' % L))
     # hex dump cells: (name, SIZE, START, FLAGS, WIDTH, [(C1, C2) ...])
     ALLCUTS3 = [(a, b) for a in range(0, 4) for b in range(a, 4)]
-    hd = [('s0', 0, 0x0, 0x2, 2, [(0, 0)]), ('s1_ascii', 1, 0x0, 0x2, 2, [(0, 0), (0, 1), (1, 1)]), ('s3_al14_ascii', 3, 0x1E, 0x2, 2, ALLCUTS3 if not quick else [(0, 3), (1, 2), (2, 2)])]
-    if not quick:
+    hd = [('s0', 0, 0x0, 0x2, 2, [(0, 0)]), ('s1_ascii', 1, 0x0, 0x2, 2, [(0, 0), (0, 1), (1, 1)])]
+    if quick:
+        hd += [('s2_al15', 2, 0x1F, 0x0, 2, [(0, 2), (1, 1)])]
+    else:
         # cost is ~20 s per dumped byte (one string_printf per byte): cells above ~20 bytes exceed the thorough budget (measured: 12 bytes 1075 s, 17 bytes > 1800 s)
-        hd += [('s5_al13_skipsep_o64', 5, 0x123456789ABCDEFD, 0x842, 16, [(0, 0), (2, 4)]),
+        hd += [('s3_al14_ascii', 3, 0x1E, 0x2, 2, ALLCUTS3),
+               ('s5_al13_skipsep_o64', 5, 0x123456789ABCDEFD, 0x842, 16, [(0, 0), (2, 4)]),
                ('s16_al0_noascii', 16, 0x40, 0x0, 2, [(7, 9)]),
                ('s3_upto2e32', 3, 0xFFFFFFFD, 0x2, 8, [(1, 2)]), ('s4_across2e32', 4, 0xFFFFFFFE, 0x2, 16, [(1, 3)]),
                ('s4_al14_w4', 4, 0xFE, 0x2, 4, [(1, 3)]), ('s2_al15_w8', 2, 0xFFFF, 0x2, 8, [(1, 1)]), ('s2_w8_top32', 2, 0xFFFFFFF0, 0x2, 8, [(0, 2)]),
@@ -70,9 +100,26 @@ def queries(tier):
                         desc='format_data text of %d symbolic bytes at 0x%x, flags 0x%x, iovecs cut at %d/%d, decoded by an independent dump parser' % (size, st, fl, c1, c2),
                         bounds='size %d, start 0x%x, flags 0x%x, cuts (%d,%d), all byte values' % (size, st, fl, c1, c2)))
     # dumps whose last line ends at 2^64 (fixes/format_data-top-of-address-space.patch; VIOLATION on the unpatched tree)
-    for nm, size, st, cuts in (('top_ends_at_2e64', 4, 0xFFFFFFFFFFFFFFFC, (0, 4)), ('top_unaligned_to_2e64', 5, 0xFFFFFFFFFFFFFFFB, (2, 2)), ('top_last_line', 3, 0xFFFFFFFFFFFFFFF4, (1, 2))):
-        if quick and nm != 'top_ends_at_2e64':
+    for nm, size, st, fl, cuts in (('top_s1_ends_at_2e64', 1, 0xFFFFFFFFFFFFFFFF, 0x0, (0, 1)), ('top_ends_at_2e64', 4, 0xFFFFFFFFFFFFFFFC, 0x2, (0, 4)), ('top_unaligned_to_2e64', 5, 0xFFFFFFFFFFFFFFFB, 0x2, (2, 2)), ('top_last_line', 3, 0xFFFFFFFFFFFFFFF4, 0x2, (1, 2))):
+        if quick and nm != 'top_s1_ends_at_2e64':
             continue
-        qs.append(Q('hexdump_' + nm, 'XP', 'h_hexdump.c', {'SIZE': size, 'START': '0x%xULL' % st, 'FLAGS': 0x2, 'WIDTH': 16, 'C1': cuts[0], 'C2': cuts[1]}, max(21, size + 3), unwindset=PRINTF_LOOPS, mem_gb=12, timeout=1800,
-                    desc='format_data text of %d symbolic bytes whose last line ends at 2^64' % size, bounds='size %d, start 0x%x, all byte values' % (size, st)))
+        qs.append(Q('hexdump_' + nm, 'XP', 'h_hexdump.c', {'SIZE': size, 'START': '0x%xULL' % st, 'FLAGS': fl, 'WIDTH': 16, 'C1': cuts[0], 'C2': cuts[1]}, max(21, size + 3), unwindset=PRINTF_LOOPS, mem_gb=12, timeout=1800,
+                    desc='format_data text of %d symbolic bytes whose last line ends at 2^64' % size, bounds='size %d, start 0x%x, flags 0x%x, all byte values' % (size, st, fl)))
+    # diff / colour mode: (name, SIZE, START, FLAGS, WIDTH, (C1, C2), PC or None = no previous buffer); data and prev bytes symbolic
+    df = [('s1_al0', 1, 0x40, 0x3, 2, (0, 1), 0), ('s1_al3', 1, 0x43, 0x3, 2, (1, 1), 1), ('s1_al15', 1, 0x4F, 0x3, 2, (0, 0), 0),
+          ('s2_al15', 2, 0x1F, 0x1, 2, (1, 2), 2), ('s3_al3', 3, 0x103, 0x1, 4, (1, 2), 2),
+          ('s1_color_noprev', 1, 0x5, 0x3, 2, (0, 1), None), ('s1_prev_nocolor', 1, 0x5, 0x2, 2, (0, 1), 1)]
+    if not quick:
+        df += [('s2_al0', 2, 0x0, 0x3, 2, (1, 1), 1), ('s2_al3', 2, 0x3, 0x3, 2, (0, 2), 0), ('s2_al15_ascii', 2, 0xFF, 0x3, 4, (0, 1), 1),
+               ('s3_al0', 3, 0x10, 0x3, 2, (0, 3), 1), ('s3_al3_ascii', 3, 0x3, 0x3, 2, (1, 1), 3), ('s3_al15', 3, 0xFFFFFFFF, 0x3, 16, (1, 2), 2),
+               ('s4_al14_skipsep', 4, 0x2E, 0x43, 2, (2, 3), 1), ('s2_color_noprev', 2, 0xF, 0x3, 2, (1, 1), None), ('s3_prev_nocolor', 3, 0xE, 0x2, 2, (1, 2), 2)]
+    for nm, size, st, fl, w, (c1, c2), pc in df:
+        d = {'SIZE': size, 'START': '0x%xULL' % st, 'FLAGS': fl, 'WIDTH': w, 'C1': c1, 'C2': c2}
+        if pc is not None:
+            d.update(DIFF=1, PC=pc)
+        cap = hd_cap(size, st, fl, w)
+        qs.append(Q('hexdiff_' + nm, 'XP', 'h_hexdump.c', d, max(21 if w == 16 else 19, size + 3), unwindset=PRINTF_LOOPS + ',strip_escapes.0:%d' % (cap + 1), mem_gb=12, timeout=1800,
+                    desc='format_data of %d symbolic bytes at 0x%x, flags 0x%x, %s: escape sequences decoded, highlighted fields == bytes differing from prev at the same offset, text without escapes == ordinary dump' % (
+                        size, st, fl, 'previous buffer of symbolic bytes (iovecs cut at %d)' % pc if pc is not None else 'no previous buffer'),
+                    bounds='size %d, start 0x%x, flags 0x%x, cuts (%d,%d)/%s, all data and prev byte values' % (size, st, fl, c1, c2, pc)))
     return qs
